@@ -468,3 +468,13 @@ Proof.
     apply parse_number_numeric in P; unfold is_numeric_looking in Hnl; rewrite P in Hnl; discriminate. }
   rewrite Hu, Hs, Hf. destruct (starts_with [45] t && negb (leading_zero_decimal t)); reflexivity.
 Qed.
+
+(* keys: the key-position test includes the value-position test, so a key left plain also reads back as itself *)
+Corollary plain_key_reads_back_untyped c s y12 :
+  (y12 = true -> strict_booleans c = true) ->
+  is_plain_safe s && is_plain_value_safe s y12 true && negb (has_trailing_ws s) = true ->
+  deserialize_any_scalar c (mkScalar s Plain TAG_None) = RStr s.
+Proof.
+  intros Hy H. apply andb_true_iff in H. destruct H as [H _]. apply andb_true_iff in H. destruct H as [_ H].
+  apply (plain_value_reads_back_untyped c s y12 true Hy H).
+Qed.
